@@ -136,12 +136,14 @@ class PartialBind(Generic[C_co]):
     def __rshift__(self, other: "Pool") -> "C_co": ...
 
     def __rshift__(self, other: "Union[Pool, Partial[Owner]]"):  # noqa: F811
-        if isinstance(other, _pool.Pool):
+        if isinstance(other, Partial) and other.leaf:
+            return self >> other.__construct__()
+        elif isinstance(other, (Partial, PartialBind)):
+            return PartialBind(self.parent, *self.targets, other)
+        else:
+            # an element that is constructed already: a pool, or a controller
+            # that a group further right has bound to its pool
             pool = self.targets[-1] >> other
             for owner in reversed(self.targets[:-1]):
                 pool = owner >> pool
             return self.parent >> pool
-        elif isinstance(other, Partial) and other.leaf:
-            return self >> other.__construct__()
-        else:
-            return PartialBind(self.parent, *self.targets, other)
